@@ -279,11 +279,32 @@ def register_inputs(w):
             z3.Implies(sel(tag_i, k) == 1, z3.And(sel(tag_o, k) == 1, M.symdim_is(ex, sel(sym_o, k), M.label(sel(sym_i, k)))))))))
     w.shape_corresponds = shape_corresponds
 
-    # record_symbolic_dim_origins(dims, value): OriginInv is only established if dims ARE the value's declared dims
+    def dims_at_axes_correspond(ex, dims: VSeq, value_term, axes: VSeq):
+        """dims[i] is the declared dim of `value` at axis axes[i] (an int is that int, a symbolic dim its label)"""
+        shp = sel(ex.heap_arrays(VALUE, "shape")[0], value_term)
+        d = ex.heap_arrays(SHAPE, "dims")
+        tag_o, int_o, sym_o, n_o = [sel(x, shp) for x in (d[0], d[1], d[2], d[-1])]
+        tag_i, int_i, sym_i = dims.arrs[0], dims.arrs[1], dims.arrs[2]
+        k = z3.Int("k!sa")
+        ax = sel(axes.arrs[0], k)
+        return z3.And(shp != null_of(SHAPE), axes.length == dims.length, z3.ForAll([k], z3.Implies(z3.And(0 <= k, k < dims.length), z3.And(
+            0 <= ax, ax < n_o,
+            z3.Implies(sel(tag_i, k) == 0, z3.And(sel(tag_o, ax) == 0, sel(int_o, ax) == sel(int_i, k))),
+            z3.Implies(sel(tag_i, k) == 1, z3.And(sel(tag_o, ax) == 1, M.symdim_is(ex, sel(sym_o, ax), M.label(sel(sym_i, k)))))))))
+
+    def req_origins(c: Ctx):
+        ax = c["axes"]
+        if isinstance(ax, VNone):
+            return shape_corresponds(c.ex, c["dims"], c["value"].term)
+        if isinstance(ax, VSeq):
+            return dims_at_axes_correspond(c.ex, c["dims"], c["value"].term, ax)
+        raise OutOfSubset("axes of record_symbolic_dim_origins of unexpected kind")
+
+    # record_symbolic_dim_origins(dims, value, axes=None): OriginInv is only established if dims[i] IS the value's declared dim at axis i (at axes[i])
     w.add_contract(Contract(
         f"{MIC}:IRContext.record_symbolic_dim_origins",
-        params={"self": Ref(CTX), "dims": Seq(DIM), "value": Ref(VALUE), "axes": Const(NONE)},
-        requires=[("dims_are_the_declared_shape_of_value", lambda c: shape_corresponds(c.ex, c["dims"], c["value"].term))],
+        params={"self": Ref(CTX), "dims": Seq(DIM), "value": Ref(VALUE), "axes": Opt(Seq(Int))},
+        requires=[("dims_are_the_declared_shape_of_value", req_origins)],
         assumed=True, ret=NoneT, may_raise=[], props=["C04", "C12"],
         note="records (value, axis) as the run-time origin of each symbolic dim; only meaningful under its precondition",
     ))
